@@ -1,4 +1,4 @@
-SPECIFICATION Spec
+SPECIFICATION LiveSpec
 CONSTANTS
   W <- MCW
   Scripts <- MCScripts
@@ -15,7 +15,6 @@ INVARIANT C03_ShutdownQuiescent
 INVARIANT C03_StallIsReal
 INVARIANT C04_ReleasedWithinLimit
 INVARIANT C04_CachedLimitNotAhead
-INVARIANT C04_MaxFutCacheNotAhead
 INVARIANT C05_LimitRespected
 INVARIANT C05_QueuedInOwnQueue
 INVARIANT C07_PoolWithinBounds
@@ -25,5 +24,4 @@ INVARIANT C31_NoOverlap
 INVARIANT C31_NoClashAtPrepare
 INVARIANT C26_QueuedFlagMatchesQueue
 INVARIANT C09_ImpliedOutputs
-PROPERTY C04_ReleaseStep
-PROPERTY C04_ReleaseWithinFormula
+PROPERTY CompletableShutsDown
